@@ -57,6 +57,73 @@ def run_shell(args, files, plan=None, timeout=180, workdir=None, stdin=None, lt_
     return res
 
 
+def free_port():
+    import socket
+    s = socket.socket()
+    s.bind(('localhost', 0))
+    p = s.getsockname()[1]
+    s.close()
+    return p
+
+
+def listens(pid, port):
+    """does process pid hold a listening TCP socket on the port? (a successful connection alone does not say whose
+    server answered: another process may have taken the port between our probe and the server's bind)"""
+    inodes = set()
+    for fn in ('/proc/net/tcp', '/proc/net/tcp6'):
+        try:
+            with open(fn) as f:
+                for ln in f.readlines()[1:]:
+                    x = ln.split()
+                    if x[3] == '0A' and int(x[1].rsplit(':', 1)[1], 16) == port:
+                        inodes.add(x[9])
+        except OSError:
+            pass
+    if not inodes:
+        return False
+    try:
+        for fd in os.listdir('/proc/%d/fd' % pid):
+            try:
+                t = os.readlink('/proc/%d/fd/%s' % (pid, fd))
+            except OSError:
+                continue
+            if t.startswith('socket:[') and t[8:-1] in inodes:
+                return True
+    except OSError:
+        pass
+    return False
+
+
+def launch_server(make_cmd, cwd, make_env, stderr_path, timeout=60, attempts=6):
+    """start a server process on a free port and wait until it listens there.
+    -> (process, port) or (None, None); a lost race for the port (the server ends with 'Address already in use')
+    is a matter of the harness and retried with another port; the server's stderr goes to stderr_path"""
+    import time
+    for _ in range(attempts):
+        port = free_port()
+        with open(stderr_path, 'wb') as errf:
+            srv = subprocess.Popen(make_cmd(port), cwd=cwd, env=make_env(port), stdout=subprocess.DEVNULL, stderr=errf)
+        t0 = time.time()
+        while time.time() - t0 < timeout:
+            if srv.poll() is not None:
+                break
+            if listens(srv.pid, port):
+                return srv, port
+            time.sleep(0.05)
+        if srv.poll() is None:
+            srv.kill()
+            srv.wait()
+            return None, None
+        try:
+            with open(stderr_path, 'rb') as f:
+                err = f.read().decode('utf-8', 'replace')
+        except OSError:
+            err = ''
+        if 'Address already in use' not in err:
+            return None, None
+    return None, None
+
+
 def run_server_request(args, text, plan, language='en-GB', workdir=None, timeout=60):
     """start `yalafi.shell --as-server <free port>` with the fake proofreader, POST one LanguageTool-style request,
     stop the server.  -> ShellResult(rc = HTTP status or None, out = body bytes, err = server stderr, timed_out)"""
@@ -69,30 +136,19 @@ def run_server_request(args, text, plan, language='en-GB', workdir=None, timeout
     res = ShellResult()
     res.calls = []
     try:
-        s0 = socket.socket()
-        s0.bind(('localhost', 0))
-        port = s0.getsockname()[1]
-        s0.close()
         planf = os.path.join(d, '_lt.plan')
         with open(planf, 'w') as f:
             json.dump(plan or {'mode': 'empty'}, f)
-        errf = open(os.path.join(d, '_stderr'), 'wb')
-        cmd = [env.PY, '-m', 'yalafi.shell', '--no-config', '--lt-command', '%s -S %s' % (env.PY, FAKELT),
-               '--as-server', str(port)] + list(args)
-        srv = subprocess.Popen(cmd, cwd=d, env=env.child_env({'YVM_LT_PLAN': planf, 'YVM_LT_LOG': os.path.join(d, '_lt.log')}),
-                               stdout=subprocess.DEVNULL, stderr=errf)
-        res.cmd = cmd
-        t0 = time.time()
-        up = False
-        while time.time() - t0 < timeout:
-            try:
-                socket.create_connection(('localhost', port), timeout=1).close()
-                up = True
-                break
-            except OSError:
-                if srv.poll() is not None:
-                    break
-                time.sleep(0.1)
+        errp = os.path.join(d, '_stderr')
+
+        def make_cmd(port):
+            return [env.PY, '-m', 'yalafi.shell', '--no-config', '--lt-command', '%s -S %s' % (env.PY, FAKELT),
+                    '--as-server', str(port)] + list(args)
+        srv, port = launch_server(make_cmd, d, lambda port: env.child_env({'YVM_LT_PLAN': planf,
+                                                                           'YVM_LT_LOG': os.path.join(d, '_lt.log')}),
+                                  errp, timeout=timeout)
+        up = srv is not None
+        res.cmd = make_cmd(port)
         res.timed_out = not up
         res.rc, res.out = None, b''
         if up:
@@ -107,13 +163,13 @@ def run_server_request(args, text, plan, language='en-GB', workdir=None, timeout
             except (OSError, ValueError) as e:
                 res.rc = None
                 res.out = ('%s: %s' % (type(e).__name__, e)).encode()
-        srv.terminate()
-        try:
-            srv.wait(timeout=10)
-        except subprocess.TimeoutExpired:
-            srv.kill()
-        errf.close()
-        res.err = open(os.path.join(d, '_stderr'), 'rb').read().decode('utf-8', 'replace')
+        if srv is not None:
+            srv.terminate()
+            try:
+                srv.wait(timeout=10)
+            except subprocess.TimeoutExpired:
+                srv.kill()
+        res.err = open(errp, 'rb').read().decode('utf-8', 'replace') if os.path.exists(errp) else ''
     finally:
         shutil.rmtree(d, ignore_errors=True)
     return res
